@@ -190,6 +190,22 @@ impl G {
 		let n = match r.below(40) { 0 => 8191, 1..=4 => 0, 5..=8 => 1, 9 => 8190, _ => r.below(20) as usize };
 		if n > 100 { let x = self.u64b(r); (0..n as u64).map(|i| x.wrapping_add(i)).collect() } else { (0..n).map(|_| self.u64b(r)).collect() }
 	}
+	fn witness(&self, r: &mut Rng) -> bitcoin::Witness {
+		let n = match r.below(4) { 0 => 0, 1 => 1, _ => r.below(5) as usize };
+		let items: Vec<Vec<u8>> = (0..n).map(|_| self.vecu8(r, 80)).collect();
+		bitcoin::Witness::from_slice(&items)
+	}
+	/// a bitcoin transaction with 1..3 inputs, 0..3 outputs, with or without witnesses (serialized length far below the u16 prevtx length)
+	fn tx(&self, r: &mut Rng) -> bitcoin::Transaction {
+		use bitcoin::{absolute::LockTime, transaction::Version, Amount, OutPoint, Sequence, TxIn, TxOut};
+		let segwit = r.chance(1, 2);
+		let ni = 1 + r.below(3) as usize;
+		let input = (0..ni).map(|_| TxIn { previous_output: OutPoint { txid: self.txid(r), vout: self.u32b(r) }, script_sig: self.script(r), sequence: Sequence(self.u32b(r)),
+			witness: if segwit { self.witness(r) } else { bitcoin::Witness::new() } }).collect();
+		let no = r.below(4) as usize;
+		let output = (0..no).map(|_| TxOut { value: Amount::from_sat(self.u64b(r) % 21_000_000_0000_0000), script_pubkey: self.script(r) }).collect();
+		bitcoin::Transaction { version: Version(self.u32b(r) as i32), lock_time: LockTime::from_consensus(self.u32b(r)), input, output }
+	}
 	fn attribution(&self, r: &mut Rng) -> AttributionData {
 		let b = r.bytes(920);
 		<AttributionData as Readable>::read(&mut &b[..]).expect("attribution data is 920 raw bytes")
@@ -230,7 +246,11 @@ const TAIL_NAMES: &[&str] = &["UnsignedChannelAnnouncement", "ChannelAnnouncemen
 /// hand-written codecs that are not a plain field sequence, with their own model decoders (Model/MsgCustom.lean): the answer line
 /// carries the parsed structure as well, the mutation stream is structure-aware (`custom_mutations`), and three of them are
 /// behind `wire::read`
-const CUSTOM_NAMES: &[&str] = &["UnsignedNodeAnnouncement", "NodeAnnouncement", "QueryShortChannelIds", "ReplyChannelRange"];
+const CUSTOM_NAMES: &[&str] = &["UnsignedNodeAnnouncement", "NodeAnnouncement", "QueryShortChannelIds", "ReplyChannelRange", "OnionMessage"];
+/// messages with NO Lean model (bitcoin consensus encodings / blinded paths inside): the same valid + mutation streams run through the
+/// real decoder for the impl-side oracles only (no panic, decode(encode(m)) == m, re-encode stability, declared prevtx length); the
+/// op lines are recorded as directives (`oracle <Name> <hex>`, not compared with the model, not counted as cases)
+const ORACLE_ONLY_NAMES: &[&str] = &["TxAddInput", "TxSignatures", "RevokeAndACK"];
 /// number of TLV fields per message (for the presence mask)
 fn n_tlvs(name: &str) -> u32 {
 	match name {
@@ -350,6 +370,31 @@ fn build(name: &str, g: &G, r: &mut Rng, mask: u32, fails: &mut Vec<String>) -> 
 		"WarningMessage" => fin!(msgs::WarningMessage { channel_id: g.cid(r), data: g.text(r) }, msgs::WarningMessage),
 		"Ping" => fin!(msgs::Ping { ponglen: g.u16b(r), byteslen: g.padlen(r) }, msgs::Ping),
 		"Pong" => fin!(msgs::Pong { byteslen: g.padlen(r) }, msgs::Pong),
+		"TxAddInput" => {
+			let t = g.txid(r);
+			let prevtx = if r.chance(1, 4) { None } else { Some(g.tx(r)) };
+			fin!(msgs::TxAddInput { channel_id: g.cid(r), serial_id: g.u64b(r), prevtx, prevtx_out: g.u32b(r), sequence: g.u32b(r), shared_input_txid: opt(mask, 0, t) }, msgs::TxAddInput)
+		},
+		"TxSignatures" => {
+			let sg = g.sig(r);
+			let n = match r.below(4) { 0 => 0, 1 => 1, _ => r.below(5) as usize };
+			let witnesses = (0..n).map(|_| g.witness(r)).collect();
+			fin!(msgs::TxSignatures { channel_id: g.cid(r), tx_hash: g.txid(r), witnesses, shared_input_signature: opt(mask, 0, sg) }, msgs::TxSignatures)
+		},
+		"RevokeAndACK" => {
+			use lightning::blinded_path::{message::BlindedMessagePath, BlindedHop};
+			let np = match r.below(3) { 0 => 0, 1 => 1, _ => r.below(4) as usize };
+			let paths = (0..np).map(|_| {
+				let nh = 1 + r.below(3) as usize;
+				let hops = (0..nh).map(|_| BlindedHop { blinded_node_id: g.pk(r), encrypted_payload: g.vecu8(r, 60) }).collect();
+				(g.u64b(r), BlindedMessagePath::from_blinded_path(g.pk(r), g.pk(r), hops))
+			}).collect();
+			fin!(msgs::RevokeAndACK { channel_id: g.cid(r), per_commitment_secret: g.b32(r), next_per_commitment_point: g.pk(r), release_htlc_message_paths: paths }, msgs::RevokeAndACK)
+		},
+		"OnionMessage" => {
+			let n = match r.below(10) { 0 => 0, 1 => 1, 2 => 1300, 3 => 4096, 4 => 4097, _ => r.below(200) as usize };
+			fin!(msgs::OnionMessage { blinding_point: g.pk(r), onion_routing_packet: lightning::onion_message::packet::Packet { version: if r.chance(1, 2) { 0 } else { r.next() as u8 }, public_key: g.pk(r), hop_data: r.bytes(n), hmac: g.b32(r) } }, msgs::OnionMessage)
+		},
 		"Init" => {
 			let nf = match r.below(6) { 0 => 0, 1 => 1, 2 => 2, 3 => 3, _ => r.below(14) as usize };
 			let features = match r.below(4) { 0 => lightning::types::features::InitFeatures::from_be_bytes({ let mut b = r.bytes(nf); if !b.is_empty() && r.chance(1, 2) { b[0] = 0; } b }), _ => lightning::types::features::InitFeatures::from_be_bytes(r.bytes(nf)) };
@@ -451,6 +496,26 @@ fn dec(name: &str, bytes: &[u8], fails: &mut Vec<String>) -> String {
 		"QueryShortChannelIds" => return dec_s::<msgs::QueryShortChannelIds>(name, bytes, fails, &|m, i, e| scid_structure(m.short_channel_ids.len(), 32, i, e)),
 		"ReplyChannelRange" => return dec_s::<msgs::ReplyChannelRange>(name, bytes, fails, &|m, i, e| scid_structure(m.short_channel_ids.len(), 41, i, e)),
 		"Init" => return dec_t::<msgs::Init>(name, bytes, fails),
+		"TxSignatures" => return dec_t::<msgs::TxSignatures>(name, bytes, fails),
+		"RevokeAndACK" => return dec_t::<msgs::RevokeAndACK>(name, bytes, fails),
+		// oracle: the declared prevtx length (u16 after channel_id and serial_id) is exactly the serialized length of the transaction returned
+		"TxAddInput" => return dec_s::<msgs::TxAddInput>(name, bytes, fails, &|m, i, _| {
+			let declared = if i.len() >= 42 { u16::from_be_bytes([i[40], i[41]]) as usize } else { usize::MAX };
+			let have = m.prevtx.as_ref().map(|t| t.serialized_length()).unwrap_or(0);
+			(String::new(), if declared != have { vec![format!("accepted with declared prevtx length {} but the transaction returned occupies {} bytes", declared, have)] } else { vec![] })
+		}),
+		// oracles: the declared packet length is exactly 66 + hop data, and the re-encoding is the prefix of the input it covers
+		"OnionMessage" => return dec_s::<msgs::OnionMessage>(name, bytes, fails, &|m, i, e| {
+			let mut bad = vec![];
+			let h = m.onion_routing_packet.hop_data.len();
+			if i.len() < 35 { bad.push("accepted although the input ends before the packet length".to_string()); }
+			else {
+				let declared = u16::from_be_bytes([i[33], i[34]]) as usize;
+				if declared != 66 + h { bad.push(format!("accepted with declared packet length {} but the packet occupies {} bytes", declared, 66 + h)); }
+				if i.len() < 35 + declared || e != &i[..35 + declared] { bad.push("re-encoding is not the prefix of the input covered by the packet length".to_string()); }
+			}
+			(format!(" h={}", h), bad)
+		}),
 		_ => {},
 	}
 	macro_rules! table { ($($n: ident),*) => { match name { $(stringify!($n) => dec_t::<msgs::$n>(name, bytes, fails),)* _ => panic!("no decoder for {}", name) } } }
@@ -547,6 +612,13 @@ fn custom_mutations(name: &str, full: &[u8], rng: &mut Rng, exhaustive: bool) ->
 			let mut b = full[..pos + 2 + declared].to_vec(); b.extend_from_slice(&extra); b.extend_from_slice(&full[pos + 2 + declared..]);
 			if declared + d <= 0xffff { set_u16(&mut b, pos, (declared + d) as u16); out.push((b, "insert-descriptor")); }
 		}
+	} else if name == "OnionMessage" {
+		first_len_field = 33; fields16 = vec![33];
+		type_bytes.push(36);   // the tag byte of the packet's public key
+		let declared = get_u16(full, 33) as usize;
+		boundaries = vec![35, 36, 69, 35 + declared - 32, 35 + declared];
+		for d in [-67i32, -66, -65, -33, -32, 32, 66] { let v = declared as i32 + d; if (0..=0xffff).contains(&v) { let mut b = full.to_vec(); set_u16(&mut b, 33, v as u16); out.push((b, "len16-off")); } }
+		for v in [64u16, 65, 66, 67, 68] { let mut b = full.to_vec(); set_u16(&mut b, 33, v); out.push((b, "len16-set")); }
 	} else {
 		let hdr = if name == "QueryShortChannelIds" { 32 } else { 41 };
 		first_len_field = hdr; fields16 = vec![hdr];
@@ -603,10 +675,17 @@ fn custom_mutations(name: &str, full: &[u8], rng: &mut Rng, exhaustive: bool) ->
 	out
 }
 
-struct Run<'a> { rec: Rec, fails: Vec<String>, g: &'a G }
+struct Run<'a> { rec: Rec, fails: Vec<String>, g: &'a G, oracle_only: u64 }
 
 impl<'a> Run<'a> {
 	fn case_dec(&mut self, name: &str, bytes: &[u8], kind: &str) {
+		if ORACLE_ONLY_NAMES.contains(&name) {
+			let _ = dec(name, bytes, &mut self.fails);
+			self.rec.directive(&format!("oracle {} {}", name, hex(bytes)));
+			self.oracle_only += 1;
+			self.flush_fails();
+			return;
+		}
 		let ans = dec(name, bytes, &mut self.fails);
 		let outcome = ans.split(' ').take(if ans.starts_with("err") { 2 } else { 1 }).collect::<Vec<_>>().join(":");
 		self.rec.case(&format!("dec {} {}", name, hex(bytes)), &ans, &format!("{}:{}", kind, outcome), true);
@@ -658,7 +737,7 @@ fn main() {
 	let rec = Rec::new(&args.out, "c13");
 	let mut rng = Rng::new(args.seed);
 	let g = G { secp: Secp256k1::new() };
-	let mut run = Run { rec, fails: vec![], g: &g };
+	let mut run = Run { rec, fails: vec![], g: &g, oracle_only: 0 };
 	let reps: u64 = if args.thorough { 950 } else { 10 } * args.scale;
 	let n_mut: u64 = if args.thorough { 60 } else { 40 };
 
@@ -680,7 +759,7 @@ fn main() {
 	run.flush_fails();
 
 	for rep in 0..reps {
-		for name in NAMES.iter().chain(TAIL_NAMES.iter()) {
+		for name in NAMES.iter().chain(TAIL_NAMES.iter()).chain(ORACLE_ONLY_NAMES.iter()) {
 			// the long messages (1.4 kB onion, 920-byte attribution data, kB blobs) dominate the size of the
 			// op files: in the thorough tier they take part in every 8th round only
 			if args.thorough && rep % 8 != 0 && matches!(*name, "UpdateAddHTLC" | "PeerStorage" | "PeerStorageRetrieval" | "UpdateFailHTLC" | "UpdateFulfillHTLC") { continue; }
@@ -837,9 +916,11 @@ fn main() {
 		}
 	}
 	let _ = run.g;
-	run.rec.notes.insert("rule".into(), "every op line (message name + exact byte string) is a distinct case; valid stream = every TLV presence mask of each of the 32 covered macro-declared messages and of the 12 hand-written codecs with a hand-written model (Open/AcceptChannel(V2), (Unsigned)ChannelAnnouncement, (Unsigned)ChannelUpdate, ErrorMessage, WarningMessage, Ping, Pong), with fresh PRNG values; mutation stream = 16 mutation kinds + truncations on those encodings; wire ops through the verif_hooks::wire::read accessor; BigSize boundary values".into());
+	run.rec.notes.insert("rule".into(), "every op line (message name + exact byte string) is a distinct case; valid stream = every TLV presence mask of each of the 32 covered macro-declared messages, of the 12 hand-written codecs with a hand-written schema (Open/AcceptChannel(V2), (Unsigned)ChannelAnnouncement, (Unsigned)ChannelUpdate, ErrorMessage, WarningMessage, Ping, Pong) and of Init, with fresh PRNG values; mutation stream = 16 mutation kinds + truncations on those encodings; custom codecs (UnsignedNodeAnnouncement, NodeAnnouncement, QueryShortChannelIds, ReplyChannelRange, OnionMessage): structured generator over the real Rust types (all five SocketAddress kinds, 0..7 addresses, hostnames of length 0/1/254/255, unknown descriptor types as excess address data, excess data; 0..8191 ids; hop data 0..4097 bytes) + structure-aware malformed stream (every length field +-1, +-2, 0, max; every descriptor / encoding type byte; addrlen covering k descriptors +-1, +-2; byte deleted / inserted at every field boundary; truncation at every offset; single-bit and single-byte mutations from the first length field on); wire ops through the verif_hooks::wire::read accessor; BigSize boundary values".into());
 	run.rec.notes.insert("covered_messages".into(), format!("{},{},{}", NAMES.join(","), TAIL_NAMES.join(","), CUSTOM_NAMES.join(",")));
 	run.rec.notes.insert("wire_ids".into(), id_of.iter().map(|(k, v)| format!("{}={}", k, v.map(|x| x.to_string()).unwrap_or("not-dispatched".into()))).collect::<Vec<_>>().join(","));
-	run.rec.notes.insert("not_covered".into(), "macro-declared: TxSignatures (Vec<Witness>), RevokeAndACK (optional_vec of BlindedMessagePath); hand-written impls without a schema: Init (feature vectors are OR-ed and re-split on write), TxAddInput, OnionMessage, NodeAnnouncement (SocketAddress list), QueryShortChannelIds, ReplyChannelRange (encoding-type byte + sized scid vector)".into());
+	run.rec.notes.insert("impl_oracles".into(), "no panic; decode(encode(m)) == m for every generated message; for every accepted byte string decode(encode(decoded)) == decoded; node_announcement: declared addrlen == bytes of the parsed descriptors + excess_address_data (sizes from Writeable::serialized_length), header + addrlen + excess == input length, encode(decode(b)) == b; scid lists: declared encoding_len == 1 + 8*ids, encoding type 0, re-encoding == covered prefix of the input; onion_message: declared packet length == 66 + hop data, re-encoding == covered prefix; tx_add_input: declared prevtx length == serialized length of the returned transaction; BigSize: accepted encodings are minimal".into());
+	run.rec.notes.insert("oracle_only".into(), format!("{} byte strings of {} went through the real decoders for the impl-side oracles only (no Lean model: bitcoin consensus encodings / blinded paths)", run.oracle_only, ORACLE_ONLY_NAMES.join(", ")));
+	run.rec.notes.insert("not_covered".into(), "no Lean model (impl-side oracles only): TxSignatures (Vec<Witness>, bitcoin consensus encoding), RevokeAndACK (optional_vec of (u64, BlindedMessagePath)), TxAddInput (bitcoin::Transaction consensus encoding)".into());
 	run.rec.finish();
 }
